@@ -37,6 +37,17 @@ Theorem C09_normal_flip_homog_refuted :
 Proof. exact normal_flip_homog_refuted. Qed.
 Print Assumptions C09_normal_flip_homog_refuted.
 
+(* where the original rule was right: the caller's extra entry of the normal (index dim) is 0 — which covers
+   Cartesian point types (length normal_in = dim, so that entry reads as 0) and homogeneous normals with w = 0 *)
+Theorem C09_normal_faces_sensor_old_rule_w0 : forall eig dim size p nb normal_in,
+  dim = 2%nat \/ dim = 3%nat ->
+  eig_contract dim (covariance ROps dim size nb) (eig (covariance ROps dim size nb)) ->
+  (length p <= S dim)%nat -> vcoord ROps normal_in dim = 0 ->
+  let n := firstn dim (e_normal (estimate_point ROps eig true dim size p nb normal_in)) in
+  vdot ROps n (firstn dim p) <= 0.
+Proof. exact normal_faces_sensor_old_rule_w0. Qed.
+Print Assumptions C09_normal_faces_sensor_old_rule_w0.
+
 (* the normal is the direction of least variance: n^T C n = lambda_0 <= x^T C x for every unit x *)
 Theorem C09_normal_least_variance : forall eig dim size p nb normal_in,
   dim = 2%nat \/ dim = 3%nat ->
@@ -87,6 +98,52 @@ Theorem C09_planar_exact : forall eig dim size p nb normal_in m c,
 Proof. exact planar_exact. Qed.
 Print Assumptions C09_planar_exact.
 
+(* rotation equivariance, at the level of the covariance matrix: if C' = Rm C Rm^T for a rotation Rm and the
+   smallest eigenvalue of C is simple, any two results meeting the contract have lam'_0 = lam_0 and the first
+   eigenvector of C' is +- Rm (first eigenvector of C).
+   PARTIAL: a statement about matrices only.  The two missing links to the model — (a) the covariance of the
+   rotated neighbours is Rm C Rm^T, (b) the flip selects the same sign — are C09_covariance_rotated and
+   C09_rotation_equivariance below. *)
+Theorem C09_rotation_equivariance_partial : forall dim Rm C C' lam cols lam' cols',
+  dim = 2%nat \/ dim = 3%nat ->
+  is_rotation dim Rm -> conj_by dim Rm C C' ->
+  eig_contract dim C (lam, cols) -> eig_contract dim C' (lam', cols') ->
+  vcoord ROps lam 0 < vcoord ROps lam 1 ->
+  vcoord ROps lam' 0 = vcoord ROps lam 0 /\
+  (nth 0 cols' [] = rot_apply dim Rm (nth 0 cols []) \/
+   nth 0 cols' [] = vneg ROps (rot_apply dim Rm (nth 0 cols []))).
+Proof. exact rotation_equivariance_partial. Qed.
+Print Assumptions C09_rotation_equivariance_partial.
+
+(* (a) two-pass mean/covariance is equivariant: [rot_point dim Rm q] applies Rm to the first dim entries of q and
+   keeps the rest (w).  Holds for any matrix Rm. *)
+Theorem C09_covariance_rotated : forall dim size Rm nb,
+  dim = 2%nat \/ dim = 3%nat -> (dim <= size)%nat -> (forall q, In q nb -> length q = size) ->
+  conj_by dim Rm (covariance ROps dim size nb) (covariance ROps dim size (map (rot_point dim Rm) nb)).
+Proof. exact covariance_rotated. Qed.
+Print Assumptions C09_covariance_rotated.
+
+(* the full property: rotating the neighbours and the point about the sensor (origin) rotates the normal and
+   leaves lambda_0 and the curvature unchanged — whenever the normal is determined at all: lambda_0 simple and
+   n . p <> 0 (for n . p = 0 the code keeps the sign the solver returned, which the contract does not fix).
+   The caller-supplied contents of the two normals may differ. *)
+Theorem C09_rotation_equivariance : forall eig dim size p nb normal_in normal_in' Rm,
+  dim = 2%nat \/ dim = 3%nat -> is_rotation dim Rm ->
+  (dim <= size)%nat -> (forall q, In q nb -> length q = size) ->
+  let nb' := map (rot_point dim Rm) nb in
+  let p' := rot_point dim Rm p in
+  eig_contract dim (covariance ROps dim size nb) (eig (covariance ROps dim size nb)) ->
+  eig_contract dim (covariance ROps dim size nb') (eig (covariance ROps dim size nb')) ->
+  let e := estimate_point ROps eig false dim size p nb normal_in in
+  let e' := estimate_point ROps eig false dim size p' nb' normal_in' in
+  vcoord ROps (e_lambda e) 0 < vcoord ROps (e_lambda e) 1 ->
+  vdot ROps (firstn dim (e_normal e)) (firstn dim p) <> 0 ->
+  firstn dim (e_normal e') = rot_apply dim Rm (firstn dim (e_normal e)) /\
+  vcoord ROps (e_lambda e') 0 = vcoord ROps (e_lambda e) 0 /\
+  e_curvature e' = e_curvature e.
+Proof. exact rotation_equivariance. Qed.
+Print Assumptions C09_rotation_equivariance.
+
 (* --- non-vacuity: the contract is satisfiable on a concrete cloud, and the theorems apply to it --- *)
 Example C09_contract_satisfiable :
   eig_contract 3 (covariance ROps 3 4 wit_nb) (wit_eig (covariance ROps 3 4 wit_nb)).
@@ -108,4 +165,80 @@ Proof.
   - cbn; lra.
   - intros q [<-|[<-|[<-|[<-|[]]]]]; cbn; lra.
   - cbn; lra.
+Qed.
+
+Example C09_curvature_on_witness :
+  0 <= e_curvature (estimate_point ROps wit_eig false 3 4 wit_p wit_nb [0; 0; 0; 1]) <= 1 / INR 3.
+Proof.
+  apply (C09_curvature_range wit_eig 3 4 wit_p wit_nb [0; 0; 0; 1]).
+  - right; reflexivity.
+  - exact C09_contract_satisfiable.
+  - cbn; lra.
+Qed.
+
+(* the hypotheses of the rotation theorem are satisfiable: quarter turn in the plane, C = diag(1,2) *)
+Example C09_rotation_hypotheses_satisfiable :
+  let Rm := [[0; -1]; [1; 0]] in
+  let C := [[1; 0]; [0; 2]] in
+  let C' := [[2; 0]; [0; 1]] in
+  is_rotation 2 Rm /\ conj_by 2 Rm C C' /\
+  eig_contract 2 C ([1; 2], [[1; 0]; [0; 1]]) /\ eig_contract 2 C' ([1; 2], [[0; 1]; [1; 0]]) /\
+  vcoord ROps [1; 2] 0 < vcoord ROps [1; 2] 1 /\
+  nth 0 [[0; 1]; [1; 0]] [] = rot_apply 2 Rm (nth 0 [[1; 0]; [0; 1]] []).
+Proof.
+  cbv zeta.
+  assert (forall P : nat -> nat -> Prop, P 0%nat 0%nat -> P 0%nat 1%nat -> P 1%nat 0%nat -> P 1%nat 1%nat ->
+          forall i j, (i < 2)%nat -> (j < 2)%nat -> P i j) as two.
+  { intros P ? ? ? ? i j Hi Hj. destruct i as [|[|i]]; try lia; destruct j as [|[|j]]; try lia; assumption. }
+  assert (forall P : nat -> Prop, P 0%nat -> P 1%nat -> forall i, (i < 2)%nat -> P i) as one.
+  { intros P ? ? i Hi. destruct i as [|[|i]]; try lia; assumption. }
+  split; [split; apply two; cbn; lra|].
+  split; [unfold conj_by; apply two; cbn; lra|].
+  split; [|split; [|split]].
+  - unfold eig_contract; cbn [fst snd]. repeat split; try reflexivity.
+    + apply one; reflexivity.
+    + apply two; cbn; lra.
+    + apply two; cbn; lra.
+    + intros c Hc. assert (c = 0%nat) as -> by lia. cbn; lra.
+    + apply two; cbn; lra.
+  - unfold eig_contract; cbn [fst snd]. repeat split; try reflexivity.
+    + apply one; reflexivity.
+    + apply two; cbn; lra.
+    + apply two; cbn; lra.
+    + intros c Hc. assert (c = 0%nat) as -> by lia. cbn; lra.
+    + apply two; cbn; lra.
+  - cbn; lra.
+  - cbn. f_equal; [lra|f_equal; lra].
+Qed.
+
+(* the full rotation theorem applies to the witness cloud turned by a quarter about the z axis *)
+Example C09_rotation_on_witness :
+  let Rm := [[0; -1; 0]; [1; 0; 0]; [0; 0; 1]] in
+  let e := estimate_point ROps wit_eig false 3 4 wit_p wit_nb [0; 0; 0; 1] in
+  let e' := estimate_point ROps wit_eig false 3 4 (rot_point 3 Rm wit_p) (map (rot_point 3 Rm) wit_nb) [0; 0; 0; 1] in
+  firstn 3 (e_normal e') = rot_apply 3 Rm (firstn 3 (e_normal e)) /\
+  vcoord ROps (e_lambda e') 0 = vcoord ROps (e_lambda e) 0 /\ e_curvature e' = e_curvature e.
+Proof.
+  cbv zeta.
+  assert (forall P : nat -> nat -> Prop,
+            P 0%nat 0%nat -> P 0%nat 1%nat -> P 0%nat 2%nat -> P 1%nat 0%nat -> P 1%nat 1%nat -> P 1%nat 2%nat ->
+            P 2%nat 0%nat -> P 2%nat 1%nat -> P 2%nat 2%nat ->
+            forall i j, (i < 3)%nat -> (j < 3)%nat -> P i j) as three.
+  { intros P ? ? ? ? ? ? ? ? ? i j Hi Hj.
+    destruct i as [|[|[|i]]]; try lia; destruct j as [|[|[|j]]]; try lia; assumption. }
+  apply C09_rotation_equivariance.
+  - right; reflexivity.
+  - split; apply three; cbn; lra.
+  - lia.
+  - intros q [<-|[<-|[<-|[<-|[]]]]]; reflexivity.
+  - exact C09_contract_satisfiable.
+  - unfold eig_contract, wit_eig. cbn [fst snd]. repeat split; try reflexivity.
+    + intros c Hc. destruct c as [|[|[|c]]]; try lia; reflexivity.
+    + apply three; cbn; lra.
+    + apply three; cbn; lra.
+    + intros c Hc. destruct c as [|[|c]]; try lia; cbn; lra.
+    + apply three; cbn; lra.
+  - cbn; lra.
+  - unfold estimate_point, wit_eig. cbn [e_normal nth]. unfold write_normal, flip_cart.
+    cbn [firstn skipn app wit_p]. destruct (ngtb ROps _ _); cbn; lra.
 Qed.
